@@ -5,7 +5,7 @@ import multiprocessing
 import wire
 import sgrterm
 from curtsies.formatstring import FmtStr, fmtstr
-from props.common import reply_fmt
+from props.common import reply_fmt, api_pool
 
 PROP = "C05"
 MODULES = ["Curtsies.Properties.C05"]
@@ -14,7 +14,9 @@ RULE = ("grammar strings (text | ESC[ p1;..;pn m)*: exhaustive item lists of len
         "of <=6 items with <=3 parameters (each in a random spelling with up to 3 leading zeros) and texts incl. \\n \\r \\t digits "
         "';' '[' 'm'; every code spelled 0p / 00p, pygments' ESC[39;49;00m / ESC[01;31m; a sample cross-checked against pyte; round trip fmtstr(str(f)) for all 9*9*3^6 = 59049 "
         "attribute dicts (explicit False included) on a four-run string with a newline, an unformatted run and an empty run, plus "
-        "random multi-run strings incl. C0/C1 controls (0x7f 0x90 0x9c). non-trivial = at least one SGR sequence / at least one attribute")
+        "random multi-run strings incl. C0/C1 controls (0x7f 0x90 0x9c); FmtStrs built by random public-API programs with observations "
+        "(str/len/.s/.width) interleaved, and the fixed shapes f = red('ab')+'c'; str(f); g = bold(f) | fmtstr(f, bold=False) | ... "
+        "(stale memo guard): fmtstr(str(g)) must show g's own runs. non-trivial = at least one SGR sequence / at least one attribute")
 ASSUMPTIONS = ["texts are free of ESC and 0x9b (as in C01)",
                "the terminal is the SGR reader of Spec/Sgr.lean (harness mirror sgrterm.py, tied to the Lean spec on these cases every run)",
                "C05_roundtrip is derived from C05_parse_is_terminal and C01's display theorem",
@@ -213,6 +215,55 @@ def pyte_crosscheck(ctx, gc):
     ctx.note("pyte cross-check of the SGR reader on %d grammar strings" % picked)
 
 
+def api_objects(ctx):
+    """real FmtStr objects built through the public API with observations (memo fills) in between -> [(label, g)]"""
+    from curtsies.fmtfuncs import red, bold, on_blue, underline
+    out = []
+    for k, wrap in enumerate((lambda f: bold(f), lambda f: fmtstr(f, bold=False), lambda f: fmtstr(f, "blue"), lambda f: red(f),
+                              lambda f: on_blue(underline(f)), lambda f: f.copy_with_new_atts(fg=32, italic=True))):
+        for observe in (lambda f: str(f), lambda f: (f == f, hash(f)), lambda f: (len(f), f.s, f.width), lambda f: repr(f)):
+            f = red("ab") + "c"
+            observe(f)
+            g = wrap(f)
+            out.append(("fixed%d" % k, g))
+            out.append(("fixed%d-src" % k, f))
+            h = wrap(g)
+            str(g)
+            out.append(("fixed%d-twice" % k, wrap(h)))
+    for i in range(400 if ctx.thorough else 120):
+        pool, _log = api_pool(ctx.rng, steps=10)
+        out += [("prog%d" % i, g) for g in pool]
+    return out
+
+
+def check_api(ctx):
+    objs = api_objects(ctx)
+    cases, replies = [], {}
+    for label, g in objs:
+        try:
+            chunks = wire.fmt_chunks(g)                      # g's own runs
+            wire.enc_chunks(chunks)
+        except Exception as e:  # noqa: BLE001
+            ctx.violation("api: cannot read the runs of a FmtStr built through the public API: %s" % type(e).__name__, label, None)
+            continue
+        if any(ch in t for t, _ in chunks for ch in "\x1b\x9b"):
+            continue
+        key = len(cases)
+        case = dict(label=label, chunks=chunks, k=key)
+        replies[key] = guarded(lambda: reply_fmt(FmtStr.from_str(str(g))))
+        try:
+            got = eff_cells(fmtstr(str(g)))
+            w = None if got == wire.eff_cells_of_chunks(chunks) else \
+                "roundtrip-api: fmtstr(str(g)) does not show g's own runs: got %r want %r" % (got, wire.eff_cells_of_chunks(chunks))
+        except Exception as e:  # noqa: BLE001
+            w = "roundtrip-api: fmtstr(str(g)) raised %s" % type(e).__name__
+        cases.append(case)
+        ctx.count(dict(label=label, chunks=chunks), nontrivial=any(a for _, a in chunks), tag="roundtrip-api")
+        if w:
+            ctx.violation(w, dict(label=label, chunks=chunks), None)
+    ctx.tie("C05/roundtrip-api", cases, lambda c: "roundtrip " + wire.enc_chunks(c["chunks"]), lambda c: replies[c["k"]])
+
+
 def footprint(case, what):
     return None
 
@@ -251,6 +302,7 @@ def check(ctx):
         ctx.count(c, nontrivial=any(a for _, a in c), tag="roundtrip")
         if w:
             ctx.violation(w, c, footprint(c, w))
+    check_api(ctx)
 
 
 def search(ctx):
@@ -273,6 +325,9 @@ def search(ctx):
 
 def replay(payload):
     c = payload["case"]
+    if isinstance(c, dict):
+        return dict(case=c, note="FmtStr built by a public-API program (label); its own runs are `chunks`; re-run the check to rebuild the object",
+                    model_expected=wire.eff_cells_of_chunks([(t, a) for t, a in c["chunks"]]))
     if c and isinstance(c[0][1], dict):
         c = [(t, a) for t, a in c]
         return dict(case=c, implementation=impl_roundtrip(c), oracle=oracle_roundtrip(c))
